@@ -83,3 +83,53 @@ for _u in UNITS:
         _u['selftest'] = _ST[:2]
     if _u['name'] == 'mpz_mul_wv':
         _u['selftest'] = _ST[2:]
+
+# ------------------------------------------------------------------ mpz_mul_ui / mpz_mul_si: limb-exact over the PROVED contract of mpn_mul_1
+def _mul_i(op):
+    f = '__gmpz_mul_%s' % op
+    ctype = 'mpir_ui' if op == 'ui' else 'mpir_si'
+    contract = '''void %s (mpz_ptr prod, mpz_srcptr mult, %s small_mult)
+__CPROVER_requires (V_WF (prod) && V_WF (mult) && V_ABSIZ (mult) < V_ZMAX && V_GHOSTS_OK)
+__CPROVER_assigns (*prod, __CPROVER_object_whole (V_PTR (prod)), g_ci, g_co)
+__CPROVER_frees (V_PTR (prod))
+__CPROVER_ensures (V_WF_AT (prod, gk));
+''' % (f, ctype)
+    h = '''void h_mpz_mul_%(op)s (void) {
+%(W)s%(U)s  mpz_ptr w = &W; mpz_srcptr u = &U;
+ALIASBLOCK
+  %(ctype)s v = %(nd)s;
+  gk = nondet_long (); gj = nondet_long (); gh = nondet_long ();
+  __CPROVER_assume (V_GHOSTS_OK && V_WF (w) && V_WF (u) && V_ABSIZ (u) < V_ZMAX);
+  long su = V_SIZ (u), un = V_ABS (su); mp_limb_t Uk = gk < un ? V_PTR (u)[gk] : 0;
+  mp_limb_t av = %(absv)s; _Bool vneg = %(vneg)s;
+  %(f)s (w, u, v);
+  long sw = V_SIZ (w), wn = V_ABS (sw);
+  if (un == 0 || v == 0)
+    __CPROVER_assert (sw == 0, "[C01] a zero operand gives 0");
+  else
+    {
+      __CPROVER_assert ((wn == un || wn == un + 1) && wn <= V_ALLOC (w), "[C01][C04] the product has un or un+1 limbs and fits the block");
+      __CPROVER_assert ((sw < 0) == ((su < 0) != vneg), "[C01] sign of the product = xor of the signs");
+      __CPROVER_assert (gk < un ==> V_MULREL (V_PTR (w)[gk], Uk, av, g_ci, g_co), "[C01][C05] limb gk of |w| satisfies the product chain of |u| * |v| (relative to the machine multiply)");
+      __CPROVER_assert ((gk == 0 && gk < un) ==> g_ci == 0, "[C01] no carry into limb 0");
+      __CPROVER_assert (gk == un - 1 ==> (V_PTR (w)[un] == g_co && wn == un + (g_co != 0)), "[C01] limb un is the carry out of the top limb; size = un + (carry != 0)");
+    }
+  if (u != w) __CPROVER_assert ((long) V_SIZ (u) == su && (gk < un ==> V_PTR (u)[gk] == Uk), "[C05] u (not the result) unchanged");
+}'''
+    d = dict(op=op, f=f, ctype=ctype, W=mpz_obj('W'), U=mpz_obj('U'),
+             nd='nondet_ulong ()' if op == 'ui' else 'nondet_long ()',
+             absv='v' if op == 'ui' else '(v < 0 ? -(mp_limb_t) v : (mp_limb_t) v)', vneg='0' if op == 'ui' else '(v < 0)')
+    base = dict(name='mpz_mul_%s' % op, props=['C01', 'C04', 'C05', 'C15'], source='mpz/mul_%s.c' % op, contracts=['mpn.h', 'mpz.h'], contract_text=contract,
+                enforce=[f], replace=['__gmpz_realloc', '__gmpn_mul_1'], functions={f: {}}, harness=h % d, timeout=900,
+                drop_checks=['--signed-overflow-check'] if op == 'si' else [], cbmc_flags=['--no-signed-overflow-check'] if op == 'si' else [],
+                assumptions=(['ABS(small_mult) for small_mult == LONG_MIN relies on two\'s-complement wrap-around of the negation (gcc semantics); signed-overflow check off for this unit'] if op == 'si' else []),
+                selftest=[(f, r'size \+= cy != 0;', 'size += cy > 1;'), (f, r'__builtin_expect \(\(\(size \+ 1\) > ', '__builtin_expect (((size) > ')])
+    out = []
+    for t, c in (('', ''), ('wu', '  u = w;')):
+        v = dict(base); v['name'] = base['name'] + ('_' + t if t else '')
+        v['harness'] = base['harness'].replace('ALIASBLOCK', c).replace('h_mpz_mul_%s (void)' % op, 'h_%s (void)' % v['name'])
+        if t: v['selftest'] = []
+        out.append(v)
+    return out
+UNITS.extend(_mul_i('ui'))
+UNITS.extend(_mul_i('si'))
